@@ -31,15 +31,16 @@ Qed.
 Theorem fresh_ids : forall s o, Inv s -> forall x, In x (live (step_state s o)) ->
   (exists y, In y (live s) /\ tx_id y = tx_id x) \/
   (tx_id x = next_tx s /\ next_tx (step_state s o) = next_tx s + 1 /\ (forall y, In y (live s) -> tx_id y < tx_id x)
-   /\ exists sender dest amount fee token, o = Send sender dest amount fee token).
+   /\ exists sender dest amount fee token, is_send o sender dest amount fee token).
 Proof.
   intros s o I x Hx. destruct (step_state_cases s o) as [(evs & H)|E]; [|rewrite E in Hx; left; eauto].
-  pose proof (exec_rel _ _ _ _ I H) as [TX _ _ _ _ _ _]. set (s' := step_state s o) in *. clearbody s'. destruct TX.
+  pose proof (exec_rel _ _ _ _ I H) as [TX _ _ _ _ _ _]. set (s' := step_state s o) in *. clearbody s'.
+  destruct TX as [o0 P E _ | o0 sender dest amount fee token Hs P Hin E | id who x0 Hin Hid Hsn P E | id who add token which x0 L Hin Hid Ha P P' Hin' E | token nonce h b Hb Ht Hn P E].
   - left. exists x. split; auto. eapply perm_in; eauto.
-  - apply (perm_in _ _ _ _ H0) in Hx. destruct Hx as [<-|Hx]; [right|left; eauto].
+  - apply (perm_in _ _ _ _ P) in Hx. destruct Hx as [<-|Hx]; [right|left; eauto].
     simpl. repeat split; auto. { intros y Hy. apply (inv_idlt _ I); auto. } eauto 6.
   - left. exists x. split; auto. eapply perm_in; [apply Permutation_sym; eauto|]. simpl; auto.
-  - left. apply (perm_in _ _ _ _ H4) in Hx. destruct Hx as [<-|Hx].
+  - left. apply (perm_in _ _ _ _ P') in Hx. destruct Hx as [<-|Hx].
     + exists x0. split; auto. eapply perm_in; [apply Permutation_sym; eauto|]. simpl; auto.
     + exists x. split; auto. eapply perm_in; [apply Permutation_sym; eauto|]. simpl; auto.
   - left. exists x. split; auto. eapply perm_in; [apply Permutation_sym; eauto|]. apply in_or_app; auto.
@@ -149,18 +150,16 @@ Theorem leaves_only_by : forall s o s' evs x, Inv s -> accepted s o s' evs -> In
 Proof.
   intros s o s' evs x I A Hx NL. apply accepted_exec in A.
   pose proof (exec_rel _ _ _ _ I A) as [TX _ _ _ _ _ _].
-  assert (U : forall y, In y (live s) -> tx_id y = tx_id x -> y = x).
-  { intros y Hy E. eapply nodup_ids_unique; eauto. apply I. }
-  destruct TX.
+  destruct TX as [o0 P E _ | o0 sender dest amount fee token Hs P Hin E | id who x0 Hin Hid Hsn P E | id who add token which x0 L Hin Hid Ha P P' Hin' E | token nonce h b Hb Ht Hn P E].
   - exfalso. apply NL. unfold is_live, ids. apply in_map. eapply perm_in; [apply Permutation_sym; eauto|auto].
   - exfalso. apply NL. unfold is_live, ids. apply in_map. eapply perm_in; [apply Permutation_sym; eauto|simpl; auto].
-  - apply (perm_in _ _ _ _ H2) in Hx. destruct Hx as [->|Hx]; [left; subst; auto|].
+  - apply (perm_in _ _ _ _ P) in Hx. destruct Hx as [->|Hx]; [left; subst; auto|].
     exfalso. apply NL. unfold is_live, ids. apply in_map; auto.
-  - apply (perm_in _ _ _ _ H2) in Hx. exfalso. apply NL. unfold is_live, ids.
+  - apply (perm_in _ _ _ _ P) in Hx. exfalso. apply NL. unfold is_live, ids.
     destruct Hx as [->|Hx].
     + rewrite <- (with_fee_id x (tx_fee x + add)). apply in_map. eapply perm_in; [apply Permutation_sym; eauto|simpl; auto].
     + apply in_map. eapply perm_in; [apply Permutation_sym; eauto|simpl; auto].
-  - apply (perm_in _ _ _ _ H2) in Hx. apply in_app_or in Hx. destruct Hx as [Hx|Hx].
+  - apply (perm_in _ _ _ _ P) in Hx. apply in_app_or in Hx. destruct Hx as [Hx|Hx].
     + right. exists h, b. subst. auto.
     + exfalso. apply NL. unfold is_live, ids. apply in_map; auto.
 Qed.
@@ -186,10 +185,10 @@ Theorem executed_then_no_refund : forall s token nonce h s' evs x ops id who s2 
 Proof.
   intros s token nonce h s' evs x ops id who s2 evs2 I A Hx NL -> A2.
   assert (I' : Inv s').
-  { apply accepted_exec in A. eapply step_rel_inv; eauto. eapply exec_rel; eauto. }
+  { apply accepted_exec in A. eapply step_rel_inv; eauto; [eapply exec_rel; eauto | eapply exec_relation; eauto]. }
   assert (S : settled s' (tx_id x)).
   { split; auto. apply accepted_exec in A. pose proof (exec_rel _ _ _ _ I A) as [TX _ _ _ _ _ _].
-    unfold created. pose proof (inv_idlt _ I x Hx). inversion TX; subst; try lia; try contradiction. }
+    unfold created. pose proof (inv_idlt _ I x Hx). inversion TX; subst; try lia; try contradiction; try nosend. }
   pose proof (settled_forever_run ops s' _ I' S) as [_ NL2].
   destruct (cancel_auth _ _ _ _ _ (run_inv ops s' I') A2) as (y & Hy & Ey & _).
   apply NL2. unfold is_live, live, ids. rewrite map_app. apply in_or_app. left. rewrite <- Ey. apply in_map; auto.
@@ -198,20 +197,21 @@ Qed.
 (* ---------- payload / preservation ---------- *)
 Theorem payload_preserved : forall s o s' evs, Inv s -> accepted s o s' evs -> forall x', In x' (live s') ->
   In x' (live s) \/
-  (exists sender dest amount fee token, o = Send sender dest amount fee token /\ 0 < amount /\ 0 < fee /\
+  (exists sender dest amount fee token, is_send o sender dest amount fee token /\ 0 < amount /\ 0 <= fee /\
       x' = mk_tx (next_tx s) sender dest token amount fee /\ In x' (pool s')) \/
   (exists x who add token which, In x (pool s) /\ o = IncreaseFee (tx_id x) who add token which /\ 0 < add /\
       x' = with_fee x (tx_fee x + add) /\ In x' (pool s')).
 Proof.
   intros s o s' evs I A x' Hx'. apply accepted_exec in A.
-  pose proof (exec_rel _ _ _ _ I A) as [TX _ _ _ _ _ _]. destruct TX.
+  pose proof (exec_rel _ _ _ _ I A) as [TX _ _ _ _ _ _]. destruct TX as [o0 P E _ | o0 sender dest amount fee token Hs P Hin E | id who x0 Hin Hid Hsn P E | id who add token which x0 L Hin Hid Ha P P' Hin' E | token nonce h b Hb Ht Hn P E].
   - left. eapply perm_in; eauto.
-  - apply (perm_in _ _ _ _ H) in Hx'. destruct Hx' as [<-|Hx']; auto. right; left.
-    simpl in A. destruct (send_spec _ _ _ _ _ _ _ _ A) as (Ha & Hf & _).
-    exists sender, dest, amount, fee, token. auto.
+  - apply (perm_in _ _ _ _ P) in Hx'. destruct Hx' as [<-|Hx']; auto. right; left.
+    exists sender, dest, amount, fee, token. destruct Hs as [->| ->]; simpl in A.
+    + destruct (send_spec _ _ _ _ _ _ _ _ A) as (Ha & Hf & _). repeat split; auto; try lia. left; reflexivity.
+    + destruct (send_p_spec _ _ _ _ _ _ _ _ A) as (Ha & Hf & _). repeat split; auto. right; reflexivity.
   - left. eapply perm_in; [apply Permutation_sym; eauto|]. simpl; auto.
-  - apply (perm_in _ _ _ _ H3) in Hx'. destruct Hx' as [<-|Hx'].
-    + right; right. exists x, who, add, token, which. subst id. auto.
+  - apply (perm_in _ _ _ _ P') in Hx'. destruct Hx' as [<-|Hx'].
+    + right; right. exists x0, who, add, token, which. subst id. auto.
     + left. eapply perm_in; [apply Permutation_sym; eauto|]. simpl; auto.
   - left. eapply perm_in; [apply Permutation_sym; eauto|]. apply in_or_app; auto.
 Qed.
@@ -225,16 +225,14 @@ Theorem live_preserved : forall s o s' evs, Inv s -> accepted s o s' evs -> fora
   (exists h b, o = BatchExecuted (b_token b) (b_nonce b) h /\ In b (batches s) /\ In x (b_txs b)).
 Proof.
   intros s o s' evs I A x Hx. apply accepted_exec in A.
-  assert (U : forall y, In y (live s) -> tx_id y = tx_id x -> y = x).
-  { intros y Hy E. eapply nodup_ids_unique; eauto. apply I. }
-  pose proof (exec_rel _ _ _ _ I A) as [TX _ _ _ _ _ _]. destruct TX.
+  pose proof (exec_rel _ _ _ _ I A) as [TX _ _ _ _ _ _]. destruct TX as [o0 P E _ | o0 sender dest amount fee token Hs P Hin E | id who x0 Hin Hid Hsn P E | id who add token which x0 L Hin Hid Ha P P' Hin' E | token nonce h b Hb Ht Hn P E].
   - left. eapply perm_in; [apply Permutation_sym; eauto|auto].
   - left. eapply perm_in; [apply Permutation_sym; eauto|simpl; auto].
-  - apply (perm_in _ _ _ _ H2) in Hx. destruct Hx as [->|Hx]; auto. right; left. subst. auto.
-  - apply (perm_in _ _ _ _ H2) in Hx. destruct Hx as [->|Hx].
+  - apply (perm_in _ _ _ _ P) in Hx. destruct Hx as [->|Hx]; auto. right; left. subst. auto.
+  - apply (perm_in _ _ _ _ P) in Hx. destruct Hx as [->|Hx].
     + right; right; left. exists who, add, token, which. subst id. auto.
     + left. eapply perm_in; [apply Permutation_sym; eauto|simpl; auto].
-  - apply (perm_in _ _ _ _ H2) in Hx. apply in_app_or in Hx. destruct Hx as [Hx|Hx]; auto.
+  - apply (perm_in _ _ _ _ P) in Hx. apply in_app_or in Hx. destruct Hx as [Hx|Hx]; auto.
     right; right; right. exists h, b. subst. auto.
 Qed.
 
@@ -286,23 +284,48 @@ Proof. unfold user_key, MODULE, ERC20MOD; intros; lia. Qed.
 
 Ltac notmod Uk := let U1 := fresh in let U2 := fresh in destruct (user_not_module _ Uk) as [U1 U2]; ((apply U1; reflexivity) || (apply U2; reflexivity)).
 
-(* a cancel pays exactly amount + fee to the creator, in the token's base denom, and touches no other user balance *)
+(* a cancel pays exactly amount + fee to the creator and touches no other user balance: base coins in the bank for a
+   transfer made by MsgSendToExternal (or from the EVM with FX), ERC-20 tokens for a transfer started from the EVM with an
+   ERC-20 token (the one that carries an erc20 outgoing relation) *)
+Definition refund_component (s : state) (id : Z) : Z := if existsb (Z.eqb id) (relation s) then 2 else 0.
+
 Theorem refund_exact : forall s id who s' evs, Inv s -> 0 <= who -> accepted s (Cancel id who) s' evs ->
   exists x, In x (pool s) /\ tx_id x = id /\ tx_sender x = who /\
-    get_bal (bal s') (who, tx_token x, 0) = get_bal (bal s) (who, tx_token x, 0) + (tx_amount x + tx_fee x) /\
-    (forall k, user_key k -> k <> (who, tx_token x, 0) -> get_bal (bal s') k = get_bal (bal s) k).
+    get_bal (bal s') (who, tx_token x, refund_component s id) =
+    get_bal (bal s) (who, tx_token x, refund_component s id) + (tx_amount x + tx_fee x) /\
+    (forall k, user_key k -> k <> (who, tx_token x, refund_component s id) -> get_bal (bal s') k = get_bal (bal s) k) /\
+    ~ In id (relation s').
 Proof.
   intros s id who s' evs I NM A. apply accepted_exec in A. simpl in A.
-  destruct (cancel_spec _ _ _ _ _ (inv_pool_nodup _ I) A) as (x & Hin & Hid & Hs & _ & _ & _ & _ & _ & _ & _ & _ & k & _ & B).
-  assert (NM' : who <> MODULE) by (unfold MODULE; lia).
-  exists x. repeat split; auto; unfold bridge_to_base in B; destruct k; mon;
-    try (destruct (get_debit _ _ _ _ H) as (_ & _ & O)).
-  - rewrite get_credit_same, O; auto. intro E; inv E; auto.
-  - rewrite get_credit_same, O; auto. intro E; inv E; auto.
-  - rewrite get_credit_same, get_credit_other; auto. intro E; inv E; auto.
-  - intros k Uk Nk. rewrite get_credit_other, O; auto. intro E; subst k; notmod Uk.
-  - intros k Uk Nk. rewrite get_credit_other, O; auto. intro E; subst k; notmod Uk.
-  - intros k Uk Nk. rewrite !get_credit_other; auto. intro E; subst k; notmod Uk.
+  destruct (cancel_spec _ _ _ _ _ (inv_pool_nodup _ I) A)
+    as (x & Hin & Hid & Hs & _ & _ & _ & _ & _ & _ & _ & _ & _ & k & l & _ & B & R).
+  assert (NM' : who <> MODULE) by (unfold MODULE; lia). assert (NE : who <> ERC20MOD) by (unfold ERC20MOD; lia).
+  exists x. split; auto. split; auto. split; auto. unfold refund_component.
+  destruct (existsb (Z.eqb id) (relation s)) eqn:Rl.
+  - destruct R as [Hk Er]. unfold hook_refund in Hk. destruct k; try discriminate.
+    unfold bridge_to_base in B. inv B. mon. destruct (get_debit _ _ _ _ H) as (_ & _ & O).
+    repeat split.
+    + rewrite get_credit_same, get_credit_other, O, !get_credit_other; auto; intro E0; inv E0; auto.
+    + intros k Uk Nk. destruct (user_not_module _ Uk) as [U1 U2].
+      rewrite get_credit_other; auto. rewrite get_credit_other; [|intro E0; subst k; apply U2; reflexivity].
+      destruct (key_eqb k (tx_sender x, tx_token x, 0)) eqn:Ek.
+      * apply key_eqb_eq in Ek. subst k.
+        destruct (get_debit _ _ _ _ H) as (_ & D & _). rewrite D, get_credit_same, get_credit_other; [lia|].
+        intro E0; inv E0; auto.
+      * rewrite O; [|intro E0; subst k; rewrite key_eqb_refl in Ek; discriminate].
+        rewrite !get_credit_other; auto; intro E0; subst k;
+          first [rewrite key_eqb_refl in Ek; discriminate | apply U1; reflexivity | apply U2; reflexivity].
+    + rewrite Er. intro F. apply filter_In in F. destruct F as [_ F]. rewrite Z.eqb_refl in F. discriminate.
+  - destruct R as [-> Er]. repeat split.
+    + unfold bridge_to_base in B. destruct k; mon; try (destruct (get_debit _ _ _ _ H) as (_ & _ & O)).
+      * rewrite get_credit_same, O; auto. intro E0; inv E0; auto.
+      * rewrite get_credit_same, O; auto. intro E0; inv E0; auto.
+      * rewrite get_credit_same, get_credit_other; auto. intro E0; inv E0; auto.
+    + intros k0 Uk Nk. unfold bridge_to_base in B. destruct k; mon; try (destruct (get_debit _ _ _ _ H) as (_ & _ & O)).
+      * rewrite get_credit_other, O; auto. intro E0; subst k0; notmod Uk.
+      * rewrite get_credit_other, O; auto. intro E0; subst k0; notmod Uk.
+      * rewrite !get_credit_other; auto. intro E0; subst k0; notmod Uk.
+    + rewrite Er. intro F. apply existsb_z in F. congruence.
 Qed.
 
 (* a fee increase: the payer pays exactly the added fee in the offered denom, the entry's fee grows by it, nothing else changes *)
@@ -318,7 +341,7 @@ Theorem fee_exact : forall s id who add token which s' evs, Inv s -> 0 <= who ->
 Proof.
   intros s id who add token which s' evs I NM A. apply accepted_exec in A. simpl in A.
   destruct (increase_spec _ _ _ _ _ _ _ _ (inv_pool_nodup _ I) A)
-    as (Ha & x & L & Hin & Hid & Ht & P & P' & Eb & Ec & Et & Enb & Enc & Eo & Ev & k & _ & B).
+    as (Ha & x & L & Hin & Hid & Ht & P & P' & Eb & Ec & Et & Enb & Enc & Eo & Ev & _ & k & _ & B).
   assert (NM' : who <> MODULE) by (unfold MODULE; lia).
   repeat split; auto.
   - unfold pay_added_fee in B. destruct k; mon.
@@ -452,3 +475,13 @@ Proof.
   destruct (fresh_call_nonces s o I c Hc) as [Hin|(E & _)]; [|lia].
   apply NL. unfold cnonces. rewrite <- Ec. apply in_map; auto.
 Qed.
+
+(* ---------- the erc20 outgoing relation of EVM-originated transfers ---------- *)
+(* it exists only for live transfers (so it is gone once the transfer is settled), without duplicates *)
+Theorem relation_only_live : forall s, Inv s -> (forall r, In r (relation s) -> is_live s r) /\ NoDup (relation s).
+Proof. intros s I. split; [exact (inv_rel _ I) | exact (inv_reln _ I)]. Qed.
+
+(* it is kept exactly while the transfer stays live and created only by a send from the EVM that pays with an ERC-20 token *)
+Theorem relation_step : forall s o s' evs, Inv s -> accepted s o s' evs -> forall r,
+  In r (relation s') <-> (In r (relation s) /\ is_live s' r) \/ (r = next_tx s /\ evm_erc20_send s o).
+Proof. intros s o s' evs I A. apply accepted_exec in A. exact (proj1 (exec_relation _ _ _ _ I A)). Qed.
